@@ -108,7 +108,7 @@ Ops ==
   \cup {[k |-> "sfind", c |-> c] : c \in {"b", "x"}}
   \cup {[k |-> "sslice", lo |-> r[1], hi |-> r[2]] : r \in {<<1, -1>>, <<0, 2>>, <<1, 3>>}}
   \* tuples, scalars, calls
-  \cup {[k |-> "tuple"], [k |-> "tupleidx"], [k |-> "untuple"], [k |-> "ternary"], [k |-> "max"], [k |-> "min"], [k |-> "abs"], [k |-> "addn"], [k |-> "closure"], [k |-> "defarg"],
+  \cup {[k |-> "tuple"], [k |-> "tupleidx"], [k |-> "untuple"], [k |-> "ternary"], [k |-> "max"], [k |-> "min"], [k |-> "abs"], [k |-> "addn"], [k |-> "closure"], [k |-> "closurecall"], [k |-> "lambdacall"], [k |-> "closurenest"], [k |-> "lambdalocal"], [k |-> "defarg"],
         [k |-> "castint"], [k |-> "caststr"], [k |-> "tryraise"], [k |-> "breakcont"], [k |-> "range3"], [k |-> "srfind2"], [k |-> "sfind2"], [k |-> "dgetplus"], [k |-> "dgetneg"], [k |-> "dpopdefault"], [k |-> "enumcontinue"], [k |-> "kwreorder"], [k |-> "kwskip"], [k |-> "swap"], [k |-> "dblcomp"], [k |-> "dblcompcond"], [k |-> "closureloop"], [k |-> "chaincmp"], [k |-> "andor"], [k |-> "range1"], [k |-> "range2"], [k |-> "range2len"], [k |-> "range3ab"], [k |-> "rangecomp1"], [k |-> "rangecomp2"]}
   \cup {[k |-> "flchain", i |-> i] : i \in DOMAIN FlText}
 
@@ -189,6 +189,10 @@ Apply(op, st) ==
     [] k = "min" -> [st EXCEPT !.n = Min(st.n, st.b)]
     [] k = "abs" -> [st EXCEPT !.n = Abs(st.a - st.b)]
     [] k = "addn" -> [st EXCEPT !.n = st.n * 2 - st.b]
+    [] k = "closurenest" -> [st EXCEPT !.n = st.a + 2 * st.b]                                 \* def outer(ok): def inner(ik): return ik + ok ; return inner(ok) + a ; n = outer(b)
+    [] k = "lambdalocal" -> [st EXCEPT !.n = st.b + st.a]                                     \* inc: Callable[[int], int] = lambda q: q + a ; n = inc(b)
+    [] k = "closurecall" -> [st EXCEPT !.n = 2 * st.b + 2 * st.a]                            \* def tw(tf, tk): def inner(ik): return tf(tf(ik)) + tk ; return inner(tk) ; n = tw(lambda v: v + a, b)
+    [] k = "lambdacall" -> [st EXCEPT !.n = st.a + 2 * st.b]                                  \* def co(cf, cx): return ap(lambda cv: cf(cf(cv)), cx) ; n = co(lambda w: w + b, a)
     [] k = "closure" -> [st EXCEPT !.n = st.b + st.a]                                         \* def h(x): return x + a ; n = h(b)
     [] k = "defarg" -> [st EXCEPT !.n = (st.b + 5) + (st.b + 1)]                              \* def h(x, y = 5): return x + y ; n = h(b) + h(b, y=1)
     [] k = "castint" -> [st EXCEPT !.n = 12 + st.a]                                           \* n = int('12') + a
@@ -292,6 +296,10 @@ Text(op) ==
     [] k = "min" -> Line("n = min(n, b)")
     [] k = "abs" -> Line("n = abs(a - b)")
     [] k = "addn" -> Line("n = n * 2 - b")
+    [] k = "closurenest" -> Line("def outer(ok: int) -> int:") \o Line("\tdef inner(ik: int) -> int:") \o Line("\t\treturn ik + ok") \o Line("\treturn inner(ok) + a") \o Line("n = outer(b)")
+    [] k = "lambdalocal" -> Line("inc: Callable[[int], int] = lambda lq: lq + a") \o Line("n = inc(b)")
+    [] k = "closurecall" -> Line("n = tw(lambda lv: lv + a, b)")
+    [] k = "lambdacall" -> Line("n = co(lambda lw: lw + b, a)")
     [] k = "closure" -> Line("def h(hx: int) -> int:") \o Line("\treturn hx + a") \o Line("n = h(b)")
     [] k = "defarg" -> Line("def g(gx: int, gy: int = 5) -> int:") \o Line("\treturn gx + gy") \o Line("n = g(b) + g(b, gy=1)")
     [] k = "castint" -> Line("n = int('12') + a")
@@ -337,6 +345,12 @@ RECURSIVE Run(_, _)
 Run(ops, st) == IF ops = <<>> \/ IsUndef(st) THEN st ELSE Run(Tail(ops), Apply(Head(ops), st))
 
 Head1 == "def f(a: int, b: int) -> tuple[list[int], list[int], dict[str, int], dict[str, int], str, int, bool]:\n"
+\* module-level helpers the programs call: a closure / a lambda whose only use of a callable parameter of the enclosing
+\* function is calling it
+Prelude == "from collections.abc import Callable\n"
+           \o "def tw(tf: Callable[[int], int], tk: int) -> int:\n\tdef inner(ik: int) -> int:\n\t\treturn tf(tf(ik)) + tk\n\treturn inner(tk)\n"
+           \o "def ap(af: Callable[[int], int], ax: int) -> int:\n\treturn af(ax)\n"
+           \o "def co(cf: Callable[[int], int], cx: int) -> int:\n\treturn ap(lambda cv: cf(cf(cv)), cx)\n"
 Ret == Line("return (xs, ys, d, e, s, n, bb)")
 ProgText(ii, ops) == Head1 \o InitText[ii] \o JoinS([i \in DOMAIN ops |-> Text(ops[i])], "") \o Ret
 
@@ -346,7 +360,7 @@ Show(st) == IF IsUndef(st) THEN [undef |-> TRUE]
 Outcomes(ii, ops) == [j \in DOMAIN Args |-> Show(Run(ops, InitSt(ii, Args[j][1], Args[j][2])))]
 
 \* operations that declare a name (annotated local, nested function) occur at most once per program
-Declaring == {"fillanno", "fillannolen", "flchain", "kwreorder", "kwskip", "closureloop", "zipcomp", "nested", "nestedapp", "dictlist", "dintkey", "untuple", "closure", "defarg"}
+Declaring == {"closurenest", "lambdalocal", "fillanno", "fillannolen", "flchain", "kwreorder", "kwskip", "closureloop", "zipcomp", "nested", "nestedapp", "dictlist", "dintkey", "untuple", "closure", "defarg"}
 Programs == {p \in [1..K -> Ops] : \A i, j \in 1..K : (i < j /\ p[i].k \in Declaring) => p[j].k # p[i].k}
 \* every value stays inside the agreement subset (|v| < 2^20) and no operation leaves the state space
 Bounded == \A ii \in DOMAIN InitText : \A p \in Programs : \A j \in DOMAIN Args :
@@ -358,6 +372,6 @@ CopiesAreValues == \A ii \in DOMAIN InitText : \A j \in DOMAIN Args :
              Apply([k |-> "copymut"], st).xs = st.xs /\ Apply([k |-> "dcopymut"], st).d = st.d
 
 EmitProgs == \A ii \in DOMAIN InitText : \A p \in Programs :
-   PrintT("PROG " \o ToJson([init |-> ii, ops |-> [i \in DOMAIN p |-> p[i].k], text |-> ProgText(ii, p), outcomes |-> Outcomes(ii, p)]))
+   PrintT("PROG " \o ToJson([init |-> ii, ops |-> [i \in DOMAIN p |-> p[i].k], prelude |-> Prelude, text |-> ProgText(ii, p), outcomes |-> Outcomes(ii, p)]))
 EmitArgs == PrintT("ARGS " \o ToJson(Args))
 =============================================================================
